@@ -189,6 +189,22 @@ CHECKS = [
                 "than the terminal only get the reduced oracle (column 0, restoration); frame-clearing is judged only "
                 "on identities the style supports.",
     },
+    {
+        "property_id": "C07",
+        "level": "fault_enumeration",
+        "technique": "fault enumeration: every stream write (with delivered prefixes), flush, sleep and frame-render call of a generated draw is injected; the resulting stream is judged on a terminal model",
+        "text": "For generated draw configurations in both APIs a fault-free dry run numbers every stream write/flush, "
+                "sleep and frame render; calls made from inside a finally:/except: body of the library's drawing "
+                "functions (found via the AST of the current source + stack inspection) are its own clean-up and are "
+                "excluded; every other call is injected with KeyboardInterrupt and RuntimeError, an interrupted write "
+                "delivering 0, 1, len/2, len-1 or len characters. Afterwards: cursor visible, no command string or "
+                "kitty chunk series left open (strict model: only ST ends a string), attributes reset, pty termios "
+                "unchanged, render data finalized once, image size/frame unchanged, caller's PIL image usable, "
+                "interrupted-draw hook called, animations end silently on Ctrl-C while stills re-raise.",
+        "note": "Crash points are call boundaries plus write prefixes, not arbitrary bytecodes; a Ctrl-C before the "
+                "first frame is rendered may either propagate or be swallowed; a cut CSI (not a graphics command) is "
+                "tolerated as the property only names graphics-protocol commands.",
+    },
 ]
 
 NOT_APPLICABLE = [
